@@ -94,10 +94,10 @@ Proof. unfold shrink_lo, c101. numR. reflexivity. Qed.
 Lemma shrink_hi_false b : shrink_hi false b = 99 / 100 * b.
 Proof. unfold shrink_hi, c099. numR. reflexivity. Qed.
 
-Theorem perturb_in_bounds params fold us lb ub :
+Theorem perturb_snapshot_in_bounds params fold us lb ub :
   length us = length params -> length lb = length params -> length ub = length params ->
   Forall2 sign_ok lb ub ->
-  inb (Some lb) (Some ub) (perturb_params params fold us (Some lb) (Some ub)) = true.
+  inb (Some lb) (Some ub) (perturb_params_snapshot params fold us (Some lb) (Some ub)) = true.
 Proof.
   intros Hu Hl Hub Hs. apply perturb_gen_in_bounds; auto.
   eapply Forall2_impl'; [|exact Hs]. intros l u (H1 & H2 & H3). repeat split.
@@ -106,7 +106,7 @@ Proof.
   - intros a c Ea Ec. rewrite shrink_hi_false. apply H3; auto.
 Qed.
 
-(** the repaired form: any sign; only "lower <= upper shrunk by 1%" is needed *)
+(** the current code (sign-aware margins): any sign; only "lower <= upper shrunk by 1%" is needed *)
 Lemma shrink_lo_true_ge b : b <= shrink_lo true b.
 Proof.
   unfold shrink_lo, c101, c099, nltb. numR. cbn [andb].
@@ -117,10 +117,10 @@ Proof.
   unfold shrink_hi, c101, c099, nltb. numR. cbn [andb].
   destruct (Rleb 0 b) eqn:E; cbn [negb]; [apply Rleb_true in E|apply Rleb_false in E]; lra.
 Qed.
-Theorem perturb_repaired_in_bounds params fold us lb ub :
+Theorem perturb_in_bounds params fold us lb ub :
   length us = length params -> length lb = length params -> length ub = length params ->
   Forall2 (fun l u => forall a c, l = Some a -> u = Some c -> a <= shrink_hi true c) lb ub ->
-  inb (Some lb) (Some ub) (perturb_params_repaired params fold us (Some lb) (Some ub)) = true.
+  inb (Some lb) (Some ub) (perturb_params params fold us (Some lb) (Some ub)) = true.
 Proof.
   intros Hu Hl Hub Hs. apply perturb_gen_in_bounds; auto.
   eapply Forall2_impl'; [|exact Hs]. intros l u H3. repeat split; auto.
@@ -132,7 +132,7 @@ Qed.
 Theorem perturb_negative_bound_refuted :
   exists params fold us lb ub,
     inb (Some lb) (Some ub) params = true /\ Forall (fun u => 0 <= u < 1) us /\
-    inb (Some lb) (Some ub) (perturb_params params fold us (Some lb) (Some ub)) = false.
+    inb (Some lb) (Some ub) (perturb_params_snapshot params fold us (Some lb) (Some ub)) = false.
 Proof.
   exists [-3], 2, [3/4], [Some (-4)], [Some (-1)].
   assert (E : -3 * exp (2 * ((1 + 1) * (3 / 4) - 1) * ln (1 + 1)) = -6).
@@ -141,7 +141,7 @@ Proof.
   repeat split.
   - unfold in_bounds. cbn. rewrite !nltb_false by lra. reflexivity.
   - repeat constructor; lra.
-  - unfold perturb_params. rewrite perturb_gen_unfold. cbn [combine map fst snd]. rewrite E.
+  - unfold perturb_params_snapshot. rewrite perturb_gen_unfold. cbn [combine map fst snd]. rewrite E.
     unfold in_bounds, clamp_hi, clamp_lo. rewrite shrink_lo_false, shrink_hi_false.
     cbn [combine map viol_lower existsb fst snd].
     assert (Em : nmin (nmax (-6) (101 / 100 * -4)) (99 / 100 * -1) = 101 / 100 * -4).
@@ -151,22 +151,34 @@ Proof.
     rewrite Em. rewrite nltb_true by lra. reflexivity.
 Qed.
 
-(** positive bounds, but a box narrower than the two 1% margins: the result drops below the lower bound *)
-Theorem perturb_narrow_box_refuted :
+(** positive bounds, but a box narrower than the two 1% margins: the result drops below the lower bound --
+    in the snapshot and in the current (sign-aware) code alike *)
+Lemma shrink_lo_nonneg repaired b : 0 <= b -> shrink_lo repaired b = 101 / 100 * b.
+Proof.
+  intros Hb. unfold shrink_lo, c101, c099, nltb. numR. rewrite (proj2 (Rleb_true 0 b) Hb). cbn [negb].
+  rewrite andb_false_r. reflexivity.
+Qed.
+Lemma shrink_hi_nonneg repaired b : 0 <= b -> shrink_hi repaired b = 99 / 100 * b.
+Proof.
+  intros Hb. unfold shrink_hi, c101, c099, nltb. numR. rewrite (proj2 (Rleb_true 0 b) Hb). cbn [negb].
+  rewrite andb_false_r. reflexivity.
+Qed.
+
+Theorem perturb_narrow_box_refuted : forall repaired,
   exists params fold us lb ub,
     inb (Some lb) (Some ub) params = true /\ Forall (fun u => 0 <= u < 1) us /\
     Forall2 (fun l u => forall a c, l = Some a -> u = Some c -> 0 < a <= c) lb ub /\
-    inb (Some lb) (Some ub) (perturb_params params fold us (Some lb) (Some ub)) = false.
+    inb (Some lb) (Some ub) (perturb_gen repaired params fold us (Some lb) (Some ub)) = false.
 Proof.
-  exists [1], 0, [0], [Some 1], [Some (129/128)].
+  intros repaired. exists [1], 0, [0], [Some 1], [Some (129/128)].
   assert (E : 1 * exp (0 * ((1 + 1) * 0 - 1) * ln (1 + 1)) = 1).
   { replace (0 * ((1 + 1) * 0 - 1) * ln (1 + 1)) with 0 by ring. rewrite exp_0. lra. }
   repeat split.
   - unfold in_bounds. cbn. rewrite !nltb_false by lra. reflexivity.
   - repeat constructor; lra.
   - constructor; [|constructor]. intros a c Ha Hc. injection Ha as <-. injection Hc as <-. lra.
-  - unfold perturb_params. rewrite perturb_gen_unfold. cbn [combine map fst snd]. rewrite E.
-    unfold in_bounds, clamp_hi, clamp_lo. rewrite shrink_lo_false, shrink_hi_false.
+  - rewrite perturb_gen_unfold. cbn [combine map fst snd]. rewrite E.
+    unfold in_bounds, clamp_hi, clamp_lo. rewrite shrink_lo_nonneg, shrink_hi_nonneg by lra.
     cbn [combine map viol_lower existsb fst snd].
     assert (Em : nmin (nmax 1 (101 / 100 * 1)) (99 / 100 * (129 / 128)) = 99 / 100 * (129 / 128)).
     { unfold nmin, nmax. numR.
